@@ -411,8 +411,35 @@ def handleDecl (spec : String) : String :=
         | none => s!"err {i}"
     go [] 0 items
 
+/-! literal variables: `c07 lit <n> <stmt>,<stmt>,…` with
+    `stmt ::= l<x> | f<x> | a<x>=<y> | n<x> | u<x>:<ty> | c<x>:<y>` -/
+def parseScalarTy (s : String) : Option Ty :=
+  match s with
+  | "f32" => some .f32 | "f64" => some .f64
+  | s => (parseITy s).map .int
+
+def parseLStmt (s : String) : Option LStmt :=
+  let rest := (s.drop 1).toString
+  if s.startsWith "l" then rest.toNat?.map fun x => .lit x false
+  else if s.startsWith "f" then rest.toNat?.map fun x => .lit x true
+  else if s.startsWith "n" then rest.toNat?.map .neg
+  else if s.startsWith "a" then match rest.splitOn "=" with
+    | [x, y] => do pure (.alias (← x.toNat?) (← y.toNat?))
+    | _ => none
+  else if s.startsWith "u" then match rest.splitOn ":" with
+    | [x, t] => do pure (.use (← x.toNat?) (← parseScalarTy t))
+    | _ => none
+  else if s.startsWith "c" then match rest.splitOn ":" with
+    | [x, y] => do pure (.cmp (← x.toNat?) (← y.toNat?))
+    | _ => none
+  else none
+
 def handle (args : List String) : String :=
   match args with
+  | ["lit", n, prog] =>
+    match n.toNat?, (csv prog).mapM parseLStmt with
+    | some n, some prog => if n ≤ 4 then (if ltypable n prog then "typable" else "untypable") else "bad-op"
+    | _, _ => "bad-op"
   | "prog" :: rest => handleProg (" ".intercalate rest)
   | ["op", op, l, r] =>
     match parseOp op, parseOTy l, parseOTy r with
